@@ -1,4 +1,5 @@
 import MakoModel.Lexer.Plain
+import MakoModel.Codegen.RenderLiteral
 /-!
 # C01 – literal text and the documented escapes are reproduced exactly; lexing terminates
 
@@ -194,5 +195,42 @@ example : (lex Cfg.current (lit "ab\n${x}\n% if y:\nz${")).outcome = .error .exp
 
 example : (lex Cfg.asFound (lit "ab\n  ${x}")).toks.map (fun t => (t.start, t.lineno, t.pos)) = [(0, 1, 1), (5, 2, 3)] := by
   decide +kernel
+
+/-! ## end to end: lexer → template → generated code → execution (helpers in `Codegen/RenderLiteral.lean`) -/
+
+open MakoModel.Codegen MakoModel.Target in
+/-- **Text tokens are written once each, unmodified, in source order.**  For every token list made of text tokens
+    (`tmplOfTokens toks = some t`) the generated `render_body`, executed on the runtime model, returns normally
+    and the output is the concatenation of the token contents – for every crash point `k` (a text-only template has
+    no evaluation point), every `error_handler` / `format_exceptions` setting, every other template in the set, and
+    every fuel from `toks.length + 9` on. -/
+theorem render_text_tokens (toks : List Token) (t : Tmpl) (h : tmplOfTokens toks = some t)
+    (ts : List (Tmpl × Option Bool)) (ieh : Option Bool) (k : Nat) (o : Opts) (fuel : Nat)
+    (hf : toks.length + 9 ≤ fuel) :
+    (render (progOf ((t, ieh) :: ts) k) o fuel).1 = .val [] ∧
+      (render (progOf ((t, ieh) :: ts) k) o fuel).2.1 = textsOf toks :=
+  render_text_tokens_core toks t h ts ieh k o fuel hf
+
+open MakoModel.Codegen MakoModel.Target in
+/-- **A directive-free source is rendered as itself**, through all three model layers: `lex` yields one text
+    token (`lex_plain`), `tmplOfTokens` the template `text s`, `codegen` the `render_body`, and its execution writes
+    exactly `s` – every character once, unmodified, in source order; for every context as above and every fuel ≥ 10. -/
+theorem render_literal (s : List Char) (hpl : Plain s = true) (k : Nat) (o : Opts) (fuel : Nat) (hf : 10 ≤ fuel) :
+    ∃ t, tmplOfTokens (lex Cfg.current s).toks = some t ∧
+      (render (progOf [(t, none)] k) o fuel).1 = .val [] ∧ (render (progOf [(t, none)] k) o fuel).2.1 = s := by
+  by_cases hne : s = []
+  · subst hne
+    have hl : (lex Cfg.current []).toks = [] := by decide +kernel
+    refine ⟨.nil, by rw [hl]; rfl, ?_⟩
+    have := render_text_tokens_core [] .nil rfl [] none k o fuel (by simp; omega)
+    simpa [textsOf] using this
+  · rw [lex_plain Cfg.current s hne hpl]
+    refine ⟨.seq (.text s) .nil, by simp [tmplOfTokens, plainToken], ?_⟩
+    have := render_text_tokens_core [plainToken s] (.seq (.text s) .nil) (by simp [tmplOfTokens, plainToken]) [] none k o
+      fuel (by simp; omega)
+    simpa [textsOf, plainToken] using this
+
+example : Plain (lit "a < b & c\r\n  50% of ${nothing\n# one\n") = false := by decide +kernel
+example : Plain (lit "a < b & c\r\n  50 % of {nothing}\n# one\n\u00e9\u4e16") = true := by decide +kernel
 
 end MakoModel.C01
